@@ -3,6 +3,7 @@
 package c01
 
 import (
+	"math/rand"
 	"os"
 	"bytes"
 	"fmt"
@@ -211,7 +212,7 @@ func runHistory(rec *mon.Recorder, c int, long bool) {
 			removals++
 		case r < 93: // snapshot save-and-load mid-history, continue on the loaded copy
 			if len(ref) == 0 {
-				continue // C08 owns the empty-snapshot case
+				rec.Count("snapshots_of_an_empty_index_loaded", 1)
 			}
 			var buf bytes.Buffer
 			if err := idx.Save(&buf, false); err != nil {
@@ -220,6 +221,17 @@ func runHistory(rec *mon.Recorder, c int, long bool) {
 				break
 			}
 			nidx, _ := cfg.New()
+			target := "fresh"
+			if len(ops)%2 == 1 {
+				// what a replica that restores a snapshot is: an index that already holds other items
+				target = "used"
+				urng := rand.New(rand.NewSource(int64(c)*31 + int64(len(ops))))
+				for j, m := 0, 1+urng.Intn(6); j < m; j++ {
+					nidx.Insert(hx.Id(9000+j), cfg.Vec(urng), index.Metadata{"stale": "yes"}, urng.Intn(cfg.MaxLevel+1))
+				}
+				rec.Count("snapshots_loaded_into_a_used_index", 1)
+			}
+			_ = target
 			if err := nidx.Load(bytes.NewReader(buf.Bytes()), false); err != nil {
 				ops = append(ops, op{Op: "saveload", Res: "load: " + err.Error()})
 				fail("load-error", err.Error())
